@@ -1,4 +1,6 @@
 import Model.ClusterView
+import Model.EventQueue
+import Model.TokenMeta
 import Driver.Util
 /-! line-protocol driver for the event / refresh / propagation part of C16 (ops `reset ev…`, `ev…`) -/
 namespace Driver.C16Ev
@@ -20,6 +22,11 @@ structure St where
   specRep : List RHost := []         -- the property's reported list of the last evrefresh (local + valid peers)
   tracked : List Nat := []           -- objects reported DOWN by an event and not connected since
   deb : RGhost := {}                 -- unit tier on the real refreshDebouncer (`reset evdb`, `evdb…`)
+  tm : TokenMeta.TMeta := {}         -- the token-aware policy's metadata (token ring + replica tables)
+  scache : List Nat := []            -- keyspaces in the session's schema cache
+  toks : List (Nat × Nat) := []      -- object ↦ number of tokens (objects of `evhost` have one)
+  q : EvQueue.Q := {}                -- unit tier on the real eventDebouncer (`reset evq`, `evq…`): the model of the code
+  qs : EvQueue.Spec := {}            -- … and the value-level specification run through the same schedule
 
 def init : St := {}
 
@@ -32,6 +39,15 @@ def St.env (s : St) : Env :=
   { filter := fun h => s.dcOf h.obj == 3
     isLocal := fun h => !s.dcAware || s.dcOf h.obj == 1
     tokenAware := s.tokenAware, noTopo := s.noTopo, noStatus := s.noStatus }
+
+/-- the keyspaces of the harness: 1 (the session keyspace) and 2 have SimpleStrategy metadata with a replication factor
+above the number of nodes, the lookup of 3 fails, 4 has LocalStrategy (no replica map) -/
+def St.tenv (s : St) : TokenMeta.TEnv :=
+  { sessionKs := 1, known := fun k => k == 1 || k == 2, hasTok := fun h => (lookup s.toks h.obj).getD 1 != 0 }
+
+/-- the metadata after a step of the view from `v` to `v'` (`TokenMeta.TMeta.follow`) -/
+def St.followTm (s : St) (v v' : View) : TokenMeta.TMeta :=
+  if s.tokenAware then s.tm.follow s.tenv v.pol.ta v'.pol.ta else s.tm
 
 def St.obj? (s : St) (o : Nat) : Option RHost := s.objs.find? (fun h => h.obj == o)
 
@@ -74,10 +90,10 @@ def connectAll (env : Env) (v : View) : View :=
 
 /-- answer of an op that moved the view from `s.v` to `v'` -/
 def answer (s : St) (v' : View) (pre : String) : St × String :=
-  if v'.crashed then ({ s with v := { v' with crashed := false } }, "crash:nil-host")
+  if v'.crashed then ({ s with v := { v' with crashed := false }, tm := s.followTm s.v v' }, "crash:nil-host")
   else
     let rr := if v'.refreshReq > s.v.refreshReq then "1" else "0"
-    ({ s with v := v' }, pre ++ snapshot v' ++ " rr=" ++ rr)
+    ({ s with v := v', tm := s.followTm s.v v' }, pre ++ snapshot v' ++ " rr=" ++ rr)
 
 def parseEv (w : String) : Option Ev :=
   match w.toList with
@@ -104,7 +120,9 @@ def setFlags (s : St) (pol flags : String) : St :=
 /-- register the data centres of the objects `obj0, obj0+1, …` created for the rows -/
 def regRows (s : St) (rows : List Row) : St :=
   let n := rows.length
-  { s with dcs := (List.range n).zip rows |>.foldl (fun acc (i, r) => (s.nextObj + i, r.dc) :: acc) s.dcs, nextObj := s.nextObj + n }
+  { s with dcs := (List.range n).zip rows |>.foldl (fun acc (i, r) => (s.nextObj + i, r.dc) :: acc) s.dcs,
+           toks := (List.range n).zip rows |>.foldl (fun acc (i, r) => (s.nextObj + i, r.tokens) :: acc) s.toks,
+           nextObj := s.nextObj + n }
 
 def setAC (a c : Nat) (h : RHost) (obj : Nat) : RHost := if h.obj == obj then { h with addr := a, caddr := c } else h
 
@@ -153,6 +171,47 @@ def e2eRefresh (s : St) (rows : String) : Option St :=
     | none => none
     | some hs => some { s1 with v := connectAll s1.env (s1.v.refresh s1.env hs) }
 
+def sortNat (l : List Nat) : List Nat := sortBy (fun n : Nat => [n]) l
+
+def dedup (l : List Nat) : List Nat := l.foldl (fun acc x => if acc.contains x then acc else acc ++ [x]) []
+
+/-- what the harness sees of the token-aware policy's metadata: host ids of the token ring (`nil` = no ring), of the
+token owners, of every replica table (by keyspace) -/
+def tmetaStr (te : TokenMeta.TEnv) (tm : TokenMeta.TMeta) : String :=
+  let ids (l : List RHost) : String := join ((sortNat (l.map (·.id))).map toString)
+  (match tm.tring with
+   | none => "ring=nil own=nil"
+   | some l => "ring=" ++ ids l ++ " own=" ++ ids (TokenMeta.replicaHosts te l)) ++
+  " repl=" ++ (if tm.repl.isEmpty then "-" else
+    ";".intercalate ((sortBy (fun e : Nat × List RHost => [e.1]) tm.repl).map (fun e => toString e.1 ++ ":" ++ ids e.2)))
+
+def parseSchemaEv (w : String) : Option TokenMeta.SchemaEv :=
+  match w.toList with
+  | 'k' :: r => some (.keyspace (nat (String.ofList r)))
+  | 't' :: r => some (.other (nat (String.ofList r)))
+  | 'y' :: r => some (.other (nat (String.ofList r)))
+  | 'f' :: r => some (.other (nat (String.ofList r)))
+  | 'a' :: r => some (.other (nat (String.ofList r)))
+  | _ => none
+
+def schemaStr (s : St) (c : List Nat) (tm : TokenMeta.TMeta) : String :=
+  "cache=" ++ join ((sortNat c).map toString) ++ " " ++ (if s.tokenAware then tmetaStr s.tenv tm else "-")
+
+def showEv : Ev → String
+  | .topology => "t"
+  | .status .up a => "u" ++ toString a
+  | .status .down a => "d" ++ toString a
+  | .status .other a => "x" ++ toString a
+
+/-- what the unit-level harness sees of the real eventDebouncer after an op: frames in the buffer, is the debounce
+timer running, the handler goroutines that were started and have not yet read their frames -/
+def queueState (q : EvQueue.Q) : String :=
+  "buf=" ++ toString q.events.len ++ " timer=" ++ (if q.timer then "1" else "0") ++
+  " pending=" ++ join (q.pending.map (fun p => toString p.1))
+
+def queueOp (s : St) (a : EvQueue.QAct) : St :=
+  { s with q := EvQueue.qstep EvQueue.goGrow s.q a, qs := EvQueue.sstep s.qs a }
+
 def oracleStr (pfx : String) (l : List Nat) : String :=
   if l.isEmpty then "ok" else pfx ++ ",".intercalate (l.map toString)
 
@@ -192,6 +251,13 @@ def refreshOp (s : St) (rows : String) : St × String :=
                                                 is pushed and debounced WHILE that refresh is running; release; quiescence
   reset evdb                                    a real refreshDebouncer (1 h interval, refreshFn blocks until released, timer fired by hand)
   evdbreq | evdbnow | evdbfire | evdbrel | evdbdrain   debounce() / refreshNow() / the timer fires / refreshFn returns / until quiet (Model DOp)
+  evpart | evks <k>                             policy.SetPartitioner(Murmur3) / policy.KeyspaceChanged(ks<k>) → the token-aware metadata
+  evscache <k> | evschema <evs>                 the schema cache is filled for ks<k> / Session.handleSchemaEvent; evs = k<ks> | t<ks> | y<ks> | f<ks> | a<ks>
+  evtmeta                                       the token-aware policy's metadata: hosts of the token ring, token owners, replica tables
+  evrouted                                      oracle "every host the metadata refers to / a routed query is offered is an object of the ring"
+  reset evq                                     a real eventDebouncer whose callback waits for the harness before it reads its frames
+  evq <ev> | evqfire | evqrun <k>               debounce(frame) / the debounce timer expires (flush) / handler goroutine k reads its batch
+  evqhandled                                    oracle "every handler that has run saw exactly the frames of its own flush"
   evdbserved                                    oracle "every request was followed by a refresh that started after it; every refreshNow() caller
                                                 was answered, and not by a refresh that had started before its call" (positions in the requests) -/
 def step (s : St) (ws : List String) : St × String :=
@@ -252,7 +318,9 @@ def step (s : St) (ws : List String) : St × String :=
         | some hs =>
           let env2 := s2.env
           let v := hs.foldl (fun v h => if env2.filter h then v else v.addInitial env2 h) { View.empty with ring := r }
-          answer { s2 with v := { v with refreshReq := 0 } } v "ok "
+          -- NewVerifEvSession: SetPartitioner (from system.local) before the hosts are added; no keyspace is known yet
+          let tm : TokenMeta.TMeta := if s2.tokenAware then { part := true, tring := some v.pol.ta } else {}
+          answer { s2 with v := { v with refreshReq := 0 }, tm := tm } v "ok "
   | ["evrefresh", rows] => refreshOp s rows
   | ["evrefreshx", rows] => refreshOp s rows
   | ["evrefreshfail"] => answer s s.v "err:gethosts "
@@ -349,6 +417,39 @@ def step (s : St) (ws : List String) : St × String :=
     (s, if !s.deb.lost.isEmpty then oracleStr "lost:" s.deb.lost
         else if !s.deb.early.isEmpty then oracleStr "early:" s.deb.early
         else oracleStr "unanswered:" s.deb.unanswered)
+  | ["evpart"] =>
+    let ps := TokenMeta.pstep env s.tenv ⟨s.v.pol, s.tm⟩ .setPartitioner
+    ({ s with tm := ps.tm }, tmetaStr s.tenv ps.tm)
+  | ["evks", k] =>
+    let ps := TokenMeta.pstep env s.tenv ⟨s.v.pol, s.tm⟩ (.keyspaceChanged (nat k))
+    ({ s with tm := ps.tm }, tmetaStr s.tenv ps.tm)
+  | ["evtmeta"] => (s, tmetaStr s.tenv s.tm)
+  | ["evscache", k] =>
+    let st := TokenMeta.schemaOp env s.tenv s.v.pol ⟨s.scache, s.tm⟩ (.fill (nat k))
+    ({ s with scache := st.cache }, schemaStr s st.cache s.tm)
+  | ["evschema", b] =>
+    let evs := if b == "-" then [] else (b.splitOn ",").filterMap parseSchemaEv
+    let st := TokenMeta.schemaOp env s.tenv s.v.pol ⟨s.scache, s.tm⟩ (.events evs)
+    ({ s with scache := st.cache, tm := st.tm }, schemaStr s st.cache st.tm)
+  | ["evrouted"] =>
+    -- oracle: every host the token-aware metadata refers to (every host a routed query can be offered) is an object of
+    -- the ring (C16_routed_oracle_ok)
+    (s, oracleStr "vanished:" (sortNat (dedup (s.tm.strayRefs s.v.ring.allHosts))))
+  | ["reset", "evq"] => ({ q := {}, qs := {} }, "ok")
+  | ["evq", e] => match parseEv e with
+    | none => (s, "bad-op")
+    | some ev => let s1 := queueOp s (.debounce ev); (s1, queueState s1.q)
+  | ["evqfire"] => let s1 := queueOp s .fire; (s1, queueState s1.q)
+  | ["evqrun", k] =>
+    let s1 := queueOp s (.run (nat k))
+    if s1.q.handled.length == s.q.handled.length then (s1, "none " ++ queueState s1.q) else
+    match s1.q.handled.getLast? with
+    | none => (s1, "none " ++ queueState s1.q)
+    | some b => (s1, "batch=" ++ join (b.2.map showEv) ++ " " ++ queueState s1.q)
+  | ["evqhandled"] =>
+    -- oracle: every handler that has run saw exactly the frames of its own flush (C16_event_batches_intact)
+    (s, if s.q.intact s.qs then "ok" else
+      oracleStr "clobbered:" ((s.q.handled.filter (fun b => !s.qs.handled.contains b)).map (·.1)))
   | ["e2ebound"] => (s, "ok")
   | ["e2eorder", n] =>
     -- n STATUS_CHANGE frames written back to back: the buffer of the node-event debouncer is the wire order (C16_wire_order_last_wins)
